@@ -8,6 +8,7 @@ modes:
   shift      three comment lines inserted after every `def` line and at the top of every file (all line numbers move)
   log        `trace.mutter("enter <qualname>")`-style no-op statement (a bare string expression) inserted as the first
              statement of every function (statement indices move; blocks get one more statement)
+  annotate   every simple local assignment gets a type annotation (`x: object = v`)
   messages   the text of every raised exception / logged message changed
   swapelse   two-armed ifs with simple arms rewritten as `if not c: B else: A`
   rename     every function-local variable whose name is assigned in exactly one function of the module and is at least
@@ -171,7 +172,26 @@ def t_swapelse(src):
     return ast.unparse(ast.fix_missing_locations(tree)) + "\n"
 
 
-MODES = {"reformat": t_reformat, "shift": t_shift, "log": t_log, "rename": t_rename, "messages": t_messages, "swapelse": t_swapelse}
+def t_annotate(src):
+    """Every `name = value` with a single plain-name target inside a function becomes `name: object = value`."""
+    tree = ast.parse(src)
+    for fn in ast.walk(tree):
+        if not isinstance(fn, (ast.FunctionDef, ast.AsyncFunctionDef)):
+            continue
+        declared = {nm for n in ast.walk(fn) if isinstance(n, (ast.Global, ast.Nonlocal)) for nm in n.names}
+        seen = set()
+        for parent in ast.walk(fn):
+            for field in ("body", "orelse", "finalbody"):
+                stmts = getattr(parent, field, None)
+                if not isinstance(stmts, list):
+                    continue
+                for i, st in enumerate(stmts):
+                    if isinstance(st, ast.Assign) and len(st.targets) == 1 and isinstance(st.targets[0], ast.Name) and st.targets[0].id not in declared:
+                        stmts[i] = ast.copy_location(ast.AnnAssign(target=st.targets[0], annotation=ast.Name(id="object", ctx=ast.Load()), value=st.value, simple=1), st)
+    return ast.unparse(ast.fix_missing_locations(tree)) + "\n"
+
+
+MODES = {"annotate": t_annotate, "reformat": t_reformat, "shift": t_shift, "log": t_log, "rename": t_rename, "messages": t_messages, "swapelse": t_swapelse}
 
 
 def main():
